@@ -144,7 +144,8 @@ def bounded_generated_union_members(tier, seed):
     P = C.PRIMS
     S = {"type": "string"}
     schemas = {
-        "Item": C.obj({"id": P["str"], "n": P["int"]}, ["id"]),
+        # (renamed wire keys: a container-of-models variant decodes correctly only if the item model's own key-map hook is registered — in a FRESH interpreter)
+        "Item": C.obj({"item-id": P["str"], "meowVolume": P["int"], "n": P["int"]}, ["item-id"]),
         "Text": {"oneOf": [{"type": "array", "items": S}, {"type": "object", "additionalProperties": S}]},
         "Loose": {"anyOf": [{"type": "object", "additionalProperties": P["int"]}, S]},
         "Mixed": {"oneOf": [C.ref("Item"), {"type": "array", "items": C.ref("Item")}, {"type": "object", "additionalProperties": C.ref("Item")}, P["int"]]},
@@ -152,7 +153,7 @@ def bounded_generated_union_members(tier, seed):
     }
     d = C.doc("UM", [C.op("/h", "get", "getH", ["h"], responses={"200": C.resp_json(C.ref("Holder")), "201": C.resp_json(C.ref("Text")), "202": C.resp_json(C.ref("Mixed"))})], schemas)
     payloads = [("text", ["a", "b"]), ("text", {"en": "Hello", "fi": "Hei"}), ("loose", {"a": 1, "b": 0}), ("loose", "plain"),
-                ("mixed", {"id": "i", "n": 0}), ("mixed", [{"id": "i"}]), ("mixed", {"k": {"id": "i", "n": 2}}), ("mixed", 0)]
+                ("mixed", {"item-id": "i", "meowVolume": 0, "n": 0}), ("mixed", [{"item-id": "i", "meowVolume": 3}]), ("mixed", {"k": {"item-id": "i", "meowVolume": 2}}), ("mixed", 0)]
     root = G.scratch("c14m")
     failures, n = [], 0
     try:
@@ -160,30 +161,28 @@ def bounded_generated_union_members(tier, seed):
         if err is not None:
             return {"function": "generated unions", "backend": "bounded", "bound": "generation failed", "evaluations": 0, "distinct_nontrivial": 0, "exhaustive": False,
                     "failures": [{"id": "bounded:generated-union:generation", "detail": f"{type(err).__name__}: {err}"[:300], "input": {}}]}
-        code = textwrap.dedent('''
-            import json
-            from um.models.holder import Holder
-            from um.core.cattrs_converter import structure_from_dict
-            from um.core.utils import DataclassSerializer
-            bad = []
-            for field, value in json.loads(%r):
-                doc = {field: value}
+        n = len(payloads)
+        for field, value in payloads:  # one fresh interpreter per payload: hook registration is process-global, an earlier decode would mask a gap
+            code = textwrap.dedent('''
+                import json
+                from um.models.holder import Holder
+                from um.core.cattrs_converter import structure_from_dict
+                from um.core.utils import DataclassSerializer
+                doc = json.loads(%r)
                 try:
                     back = json.loads(json.dumps(DataclassSerializer.serialize(structure_from_dict(doc, Holder))))
-                    if back != doc:
-                        bad.append((field, value, "re-encoded as " + json.dumps(back)))
+                    print("RESULT " + json.dumps(None if back == doc else "re-encoded as " + json.dumps(back)))
                 except Exception as e:
-                    bad.append((field, value, type(e).__name__ + ": " + str(e)[:120]))
-            print("RESULT " + json.dumps(bad))
-        ''') % json.dumps(payloads)
-        ok, out = G.import_modules(root, ["um.models"], extra_code=code)
-        n = len(payloads)
-        line = next((l for l in out.splitlines() if l.startswith("RESULT ")), None)
-        if not ok or line is None:
-            failures.append({"id": "bounded:generated-union:harness", "detail": out[-500:], "input": {}})
-        else:
-            for field, value, why in json.loads(line[7:]):
-                kind = "map" if isinstance(value, dict) and field != "mixed" or (field == "mixed" and isinstance(value, dict) and "id" not in value) else type(value).__name__
+                    print("RESULT " + json.dumps(type(e).__name__ + ": " + str(e)[:160]))
+            ''') % json.dumps({field: value})
+            ok, out = G.import_modules(root, ["um.models"], extra_code=code)
+            line = next((l for l in out.splitlines() if l.startswith("RESULT ")), None)
+            if not ok or line is None:
+                failures.append({"id": "bounded:generated-union:harness", "detail": out[-500:], "input": {}})
+                continue
+            why = json.loads(line[7:])
+            if why is not None:
+                kind = "map" if isinstance(value, dict) and field != "mixed" or (field == "mixed" and isinstance(value, dict) and "item-id" not in value) else type(value).__name__
                 failures.append({"id": f"bounded:generated-union:{field}:{kind}", "detail": f"{field} = {json.dumps(value)[:120]}: {why}"[:400], "input": {"field": field, "value": value}})
     finally:
         shutil.rmtree(root, ignore_errors=True)
